@@ -128,7 +128,9 @@ def h_clean(m, ctx, nlines, menu_name, fixed=None, history='build-clean', le_cho
         hand_written = 'DIR'
         data['pre_temp'] = 'DIR'
     data = dict(data, history=history, extra_files=[(p.decode(), list(c)) for p, c in DECOYS])
-    steps = {'build-clean': ['Build', 'Clean'], 'clean': ['Clean'], 'build-clean-clean': ['Build', 'Clean', 'Clean']}[history]
+    # 'build-rmout-clean': the output is removed by hand between the build and the clean (the temp files build created must still go)
+    steps = {'build-clean': ['Build', 'Clean'], 'clean': ['Clean'], 'build-clean-clean': ['Build', 'Clean', 'Clean'],
+             'build-rmout-clean': ['Build', 'Clean']}[history]
     pre_out = None
     pre_temp = hand_written          # a file the user wrote at t.tmp (matters when no valid temp directive names it)
     build_ok = None
@@ -174,6 +176,8 @@ def h_clean(m, ctx, nlines, menu_name, fixed=None, history='build-clean', le_cho
                     violation(ctx, 'clean changed %s' % p.decode(), d)
             ctx.cover('clean_after_' + ('build_ok' if build_ok else 'build_failed' if build_ok is False else 'nothing'))
         pre_out, pre_temp = env.read_file(OUT), ('DIR' if dir_at_temp else env.read_file(TMP))
+        if history == 'build-rmout-clean' and mode == 'Build':
+            pre_out = None
 
 
 # ----------------------------------------------------------------------------- C08 hermetic / C09 needed
@@ -232,6 +236,42 @@ def h_hermetic(m, ctx, nlines, menu_name, fixed=None, pre_out_len=None, pre_temp
                     ctx.check_holds(t_not(t_bytes_eq(tuple(pre), tuple(final))),
                                     '%s was already up to date but was rewritten (%s)' % (label, touched), data)
                 ctx.cover('rewritten')
+
+
+def h_exact_size(m, ctx, total, mode, trailing=True, extra=1):
+    """a fresh output of exactly `total` bytes (multiples of the 8 KiB I/O buffers matter) against an existing output that is the
+    fresh one plus `extra` arbitrary bytes: verify must fail, an only-if-needed build must bring it up to date"""
+    it = Interp(m, ctx)
+    it.max_loop_visits = 20000
+    x = ctx.fresh_byte('x', ASCII_LINE)
+    nl = total // 64
+    lines = [tuple(b'0123456789abcdefghijklmnopqrstuvwxyzABCDEFGHIJKLMNOPQRSTUVWXYZ-') for _ in range(nl)]       # 63 bytes + LF
+    lines[nl // 2] = lines[nl // 2][:10] + (x,) + lines[nl // 2][11:]
+    src = []
+    for i, l in enumerate(lines):
+        src.extend(l)
+        if trailing or i < nl - 1:
+            src.append(10)
+        else:
+            src.append(46)            # option off: the last line is one byte longer instead of being terminated
+    source = tuple(src) if trailing else tuple(src) + (10,)
+    se = SymEnv(ctx, inc_len=0, out_len=0)
+    spec = specpp.process(ctx, source, se, trailing)
+    assert spec.ok and len(spec.output) == total, (len(spec.output), total)
+    tail = ctx.fresh_bytes('tail', extra, ANYBYTE)
+    pre_out = tuple(spec.output) + tuple(tail)
+    env = se.install(it, source, pre_out=pre_out)
+    r = run_preprocess(m, it, mode, False, trailing)
+    data = {'op': 'fs', 'mode': mode, 'source': syms_of(source), 'inc': [], 'pre_out': syms_of(pre_out), 'pre_temp': None, 'cmd_results': [],
+            'trailing': trailing, 'lines': ['%d lines' % nl], 'source_shown': '%d lines of 64 bytes' % nl, 'mode_a': mode, 'exact_size': total}
+    ctx.cover('exact_size_%s' % mode)
+    if mode == 'Verify':
+        if r.idx == 0:
+            violation(ctx, 'verify passed on an output that is the fresh one followed by %d more byte(s) (fresh output: exactly %d bytes)' % (extra, total), data)
+        return
+    if r.idx != 0:
+        violation(ctx, 'the build failed', data)
+    check_bytes_equal(ctx, env.read_file(OUT), spec.output, 'a longer stale output was not brought up to date (fresh output: exactly %d bytes)' % total, data)
 
 
 # ----------------------------------------------------------------------------- C10 only own paths (all modes, faults on)
@@ -346,6 +386,7 @@ MODE_ARGS = {'Build': (), 'InMemoryBuild': ('-N',), 'Verify': ('verify',), 'Clea
 # ----------------------------------------------------------------------------- first pass reports dependencies (lemma for C02 / C06)
 
 DEP_SHAPES = [('d.txt', 'd.txt.txtpp'), ('d.txt', 'd.txtpp.txt'), ('e', 'e.txtpp'), ('sub/d.txt', 'sub/d.txt.txtpp'),
+              ('m.en.json', 'm.en.txtpp.json'), ('m.en.json', 'm.en.json.txtpp'),      # output names with more than one dot
               ('a.txt', 'a.txt.txtpp')]        # the last one is the source itself: a self-dependency is reported like any other
 
 
@@ -601,3 +642,18 @@ def replay_tree(v):
             bad = True
     shutil.rmtree(root, ignore_errors=True)
     return bad, detail
+
+
+def replay_exact_size(v):
+    """native replay of h_exact_size counterexamples: the same tree, the same mode and option"""
+    d = v['data']
+    model = d['model']
+    mode = d['mode']
+    res = ppreplay.run_native_history(d, model, [(MODE_ARGS[mode], d.get('trailing', True))])[0]
+    spec, env = ppreplay.spec_concrete(d, model, d.get('trailing', True))
+    pre = ppreplay.conc(d['pre_out'], model)
+    detail = {'mode': mode, 'trailing': d.get('trailing', True), 'fresh output bytes': len(bytes(spec.output)), 'existing output bytes': len(pre),
+              'rc': res['rc'], 'output bytes after the run': None if res['output'] is None else len(res['output'])}
+    if mode == 'Verify':
+        return res['rc'] == 0, detail
+    return (res['rc'] != 0 or res['output'] != bytes(spec.output)), detail
